@@ -31,6 +31,7 @@ def alphabet(names, kinds):
         for x in names:
             if x != y:
                 ops.append(["alias", y, x])
+                ops.append(["iter", y, x])
             ops.append(["pickle", y, x])
             ops.append(["feed", y, x, "sparse"])
     ops.append(["gc"])
@@ -38,12 +39,15 @@ def alphabet(names, kinds):
 
 
 def op_sx(op):
-    return [Atom(op[0])] + [Atom(x) if isinstance(x, str) else x for x in op[1:]]
+    # an open reader (`y = x.items()`, not yet consumed) uses x's arrays: for the model it is a reference to x's
+    # object, i.e. an alias (the runtime worker keeps only the iterator)
+    head = "alias" if op[0] == "iter" else op[0]
+    return [Atom(head)] + [Atom(x) if isinstance(x, str) else x for x in op[1:]]
 
 
 def run(chk: Check, drv: Driver):
     chk.cov["rule"] = (
-        "histories over {evaluate to sparse/dense/scalar output, alias, read, pickle round trip, feed as input, delete, gc.collect} "
+        "histories over {evaluate to sparse/dense/scalar/two-level output, alias, open reader (items() iterator), read, pickle round trip, feed as input, delete, gc.collect} "
         "on 2 names: all histories up to length 3 (4 thorough) over the full alphabet prefixed by one evaluation, plus seeded random "
         "histories of length 12 (30 thorough); distinct = distinct histories; non-trivial = at least one kernel array is freed before the end"
     )
